@@ -8,6 +8,7 @@ import FB.Codec
 import FB.CreatedFiles
 import FB.BuildDirs
 import FB.PathNorm
+import FB.Backups
 import FB.Conc
 open FB FB.Wire
 open Lean (Json)
@@ -334,6 +335,46 @@ def runPath (j : Lean.Json) : Except String Lean.Json := do
     pure (Lean.Json.arr #[.num (.fromNat r.1), .arr (r.2.map Lean.Json.str).toArray])
   return Json.mkObj [("outs", .arr outs.toArray)]
 
+/-- the undo log (`FB.Backups`, `file_backups.py`): a command sequence mixing the class's methods with
+    environment actions on the tree; prints tree, log and return value after every command -/
+def runBK (j : Lean.Json) : Except String Lean.Json := do
+  let mut fs ← parseTree (← j.getObjVal? "tree")
+  let cmds ← (← j.getObjVal? "cmds").getArr?
+  let mut b : FB.Backups.BK := {}
+  let mut outs : Array Lean.Json := #[]
+  let showBK (b : FB.Backups.BK) : Lean.Json := Json.mkObj [
+    ("saved", .arr (b.saved.map fun (p, e) => match e with
+        | .file c m => Lean.Json.arr #[.str (showPath p), .str c, .num (.fromNat m)]
+        | .dir => Lean.Json.arr #[.str (showPath p), .str "dir"]).toArray),
+    ("absent", showPaths b.absent)]
+  for cmd in cmds do
+    let a ← cmd.getArr?
+    let k ← (a[0]?.getD Lean.Json.null).getStr?
+    let p := parsePath (← (a[1]?.getD (Lean.Json.str "")).getStr?)
+    let mut ret : Lean.Json := .null
+    match k with
+    | "backup" =>
+      if FB.Backups.backUpRaises fs p then ret := .str "NotADirectoryError"
+      else
+        let r := FB.Backups.backUpAndRemove fs b p
+        fs := r.1; b := r.2.1; ret := .bool r.2.2
+    | "absent" => b := FB.Backups.recordAbsent b p
+    | "wasAbsent" => ret := .bool (FB.Backups.wasAbsent b p)
+    | "restore" =>
+      let r := FB.Backups.restoreAll fs b
+      fs := r.1; b := r.2
+    | "write" =>
+      let c ← (a[2]?.getD Lean.Json.null).getStr?
+      let m ← getNat (a[3]?.getD Lean.Json.null)
+      if p ≠ [] ∧ fs.isDir p.dropLast ∧ ¬ fs.isDir p then fs := fs.set p (.file c m)
+    | "mkdir" =>
+      if p ≠ [] ∧ fs.isDir p.dropLast ∧ (fs.get p).isNone then fs := fs.set p .dir
+    | "rmtree" =>
+      if p ≠ [] then fs := fs.rmtree p
+    | x => throw s!"bad bk command {x}"
+    outs := outs.push (Json.mkObj [("tree", showTree fs), ("log", showBK b), ("ret", ret)])
+  return Json.mkObj [("outs", .arr outs)]
+
 def handle (line : String) : Lean.Json :=
   match Lean.Json.parse line with
   | .error e => Json.mkObj [("bad-op", .str e)]
@@ -348,6 +389,7 @@ def handle (line : String) : Lean.Json :=
       | "cf" => runCF j
       | "bd" => runBD j
       | "path" => runPath j
+      | "bk" => runBK j
       | k => throw s!"unknown kind {k}"
     match r with
     | .ok out => out.setObjVal! "id" id
